@@ -26,7 +26,7 @@ from .core import InfraError
 PROPS = {
     'C01': ['dispatch'],
     'C02': ['dispatch', 'asyncsched'],
-    'C03': ['dispatch'],
+    'C03': ['dispatch', 'validators'],
     'C04': ['bind'],
     'C11': ['dispatch', 'asyncsched', 'registry', 'client', 'loopback'],
     'C12': ['dispatch'],
@@ -170,11 +170,22 @@ def run_check(prop, tier, seed, jobs, t0, build=True):
     diffs = []          # correspondence disagreements (projection of this property)
     findings = []       # oracle violations on the real code
     per_suite = {}
+    drift = core.source_drift()
+    # the library differs from the tree the model was compared with: explore more of the sampled part of every suite
+    extra_seeds = [seed + 1000 * k for k in (1, 2)] if (drift and tier == 'quick') else []
     for suite_name in PROPS[prop]:
         s = _suite(suite_name)
         rng = random.Random(f'{seed}/{suite_name}/{prop}')
         cases = list(s.corpus()) if hasattr(s, 'corpus') else []
         cases += list(s.generate(tier, rng))
+        if extra_seeds:
+            seen = {json.dumps(c, sort_keys=True) for c in cases}
+            for es in extra_seeds:
+                for c in s.generate(tier, random.Random(f'{es}/{suite_name}/{prop}')):
+                    k = json.dumps(c, sort_keys=True)
+                    if k not in seen:
+                        seen.add(k)
+                        cases.append(c)
         if hasattr(s, 'relevant'):
             cases = [c for c in cases if s.relevant(prop, c)]
         impl_outs = run_impl_all(suite_name, cases, jobs)
@@ -287,6 +298,8 @@ def run_check(prop, tier, seed, jobs, t0, build=True):
         'correspondence_disagreements': len(diffs),
         'branch_histogram': dict(labels.most_common(60)),
         'cases_per_suite': per_suite,
+        'source_drift': {'changed_files': drift, 'extra_seeds': extra_seeds,
+                         'note': 'library files whose syntax tree differs from lean/source_fingerprint.json; not a verdict, it widens the exploration'},
         'search': {'oracle_evaluations': evaluations + searched, 'findings_known': sorted(seen_known), 'findings_new': len(new)},
         'exhaustive': False,
     }
